@@ -25,6 +25,7 @@ import (
 	"fmt"
 	"math"
 	"math/big"
+	"regexp"
 	"strconv"
 	"strings"
 	"unicode"
@@ -390,6 +391,9 @@ func Transform(jsonData []byte) (result []byte, e error) {
 // "e-800" comes out as 0.1) and stops reading an exponent at 10000.
 const maxParseFloatLength = 700
 
+// decimalMantissa is the part of a decimal number literal in front of the exponent, as strconv.ParseFloat reads it.
+var decimalMantissa = regexp.MustCompile(`^[+-]?([0-9]+\.?[0-9]*|\.[0-9]+)$`)
+
 // parseNumber converts a number token to the nearest IEEE-754 double. Tokens that are too long for
 // strconv.ParseFloat are evaluated exactly.
 func parseNumber(token string) (float64, error) {
@@ -403,7 +407,8 @@ func parseNumber(token string) (float64, error) {
 	}
 
 	exp, ok := new(big.Int).SetString(strings.TrimPrefix(exponent, "+"), 10)
-	if !ok {
+	if !ok || !decimalMantissa.MatchString(mantissa) {
+		// not a decimal literal: whatever it is, strconv.ParseFloat decides (and refuses what is not a number)
 		return strconv.ParseFloat(token, 64)
 	}
 
